@@ -187,6 +187,11 @@ func (cs *c13case) runReader(rng *rand.Rand) string {
 		}
 	}
 	res := ReadAll(cs.Shape, src, len(cs.Recs)+5)
+	// the consumer owns the records it was given: it edits them in place (every pointee and
+	// slice element overwritten) — what another instance returned or will return must not care
+	for _, h := range res.Held {
+		Scramble(h.Elem())
+	}
 	if res.Panic != nil {
 		return fmt.Sprintf("reader panicked: %v", res.Panic)
 	}
@@ -268,6 +273,10 @@ func runC13(c *Ctx) {
 		ncases = 400
 	}
 	cases := c13Cases(c, ncases)
+	if mode == "cold" {
+		runC13Cold(c, cases)
+		return
+	}
 	// sequential references, computed before any concurrency starts — in an order that differs
 	// from process to process, so that every process gives each history a different prior
 	// process history; the digests are compared ACROSS processes by the orchestrator
@@ -372,6 +381,34 @@ func runC13(c *Ctx) {
 						viol("bytes_depend_on_other_live_instance", id, fmt.Sprintf("history %s, run while another writer (%s) was alive on the same goroutine (calls interleaved, no concurrency), produced different bytes (first difference at byte %d of %d/%d)", o.ID, cs.ID, firstDiffIdx(bb, o.Ref), len(bb), len(o.Ref)))
 					}
 				}
+			}
+		}
+		// family 1d: two readers of the same file; the consumer of the first edits ITS records in
+		// place; the records the second reader had already returned must not change, and a third
+		// reader must return the written records
+		for _, cs := range cases {
+			id := "edited-records/" + cs.ID
+			if !c.Take(id) {
+				continue
+			}
+			sc := cs.Shape.Schema()
+			ra := ReadAll(cs.Shape, NewSource(cs.Ref), len(cs.Recs)+5)
+			rc := ReadAll(cs.Shape, NewSource(cs.Ref), len(cs.Recs)+5)
+			if ra.Panic != nil || rc.Panic != nil || ra.Reported() || rc.Reported() {
+				continue // judged by the other families
+			}
+			for _, h := range ra.Held {
+				Scramble(h.Elem())
+			}
+			c.Out.Count("readers_whose_records_were_edited_in_place", 1)
+			for i, h := range rc.Held {
+				if i < len(cs.Recs) && !dremel.Equal(sc.FromGo(h.Elem()), cs.Recs[i]) {
+					viol("records_shared_between_readers", id, fmt.Sprintf("file of %s: after the records returned by one reader were edited in place, record %d that ANOTHER reader had returned earlier changed: %s (written vs now)", cs.ID, i, sc.Diff(cs.Recs[i], sc.FromGo(h.Elem()))))
+					break
+				}
+			}
+			if m := cs.runReader(nil); m != "" {
+				viol("rows_depend_on_edited_records", id, fmt.Sprintf("file of %s read by a new reader after the records of an earlier reader had been edited in place: %s", cs.ID, m))
 			}
 		}
 		// family 1: the same history after different prior process histories
@@ -551,4 +588,76 @@ func firstDiffIdx(a, b []byte) int {
 		i++
 	}
 	return i
+}
+
+// runC13Cold: the process's FIRST use of the library happens on G goroutines at
+// once (no sequential warm-up: whatever the library initialises lazily is
+// initialised under concurrency). Every goroutine runs whole write-then-read
+// histories on its own instances; afterwards each history is repeated
+// sequentially and must have produced the same bytes. Run under the race
+// detector.
+func runC13Cold(c *Ctx, cases []*c13case) {
+	c.Out.Journal("cold")
+	g := 8
+	type outcome struct {
+		cs   *c13case
+		b    []byte
+		msg  string
+		read string
+	}
+	results := make([][]outcome, g)
+	// rounds: one per struct shape, so that the first use of every shape's code paths (level
+	// widths, column types) happens on all goroutines at once; a barrier separates the rounds
+	byShape := map[string][]*c13case{}
+	var shapeOrder []string
+	for _, cs := range cases {
+		if _, ok := byShape[cs.Shape.Name]; !ok {
+			shapeOrder = append(shapeOrder, cs.Shape.Name)
+		}
+		byShape[cs.Shape.Name] = append(byShape[cs.Shape.Name], cs)
+	}
+	// the order of the rounds differs per process
+	Rng(c.Seed, fmt.Sprintf("coldorder/%d", c.Shard)).Shuffle(len(shapeOrder), func(i, j int) { shapeOrder[i], shapeOrder[j] = shapeOrder[j], shapeOrder[i] })
+	for _, sn := range shapeOrder {
+		list := byShape[sn]
+		var wg sync.WaitGroup
+		start := make(chan struct{})
+		for gi := 0; gi < g; gi++ {
+			wg.Add(1)
+			go func(gi int) {
+				defer wg.Done()
+				rng := Rng(c.Seed, fmt.Sprintf("cold/%d/%d/%s", c.Shard, gi, sn))
+				cs := list[(gi+c.Shard)%len(list)]
+				<-start
+				b, msg := cs.runWriter(rng, nil)
+				o := outcome{cs: cs, b: b, msg: msg}
+				if msg == "" {
+					tmp := *cs
+					tmp.Ref = b
+					o.read = tmp.runReader(rng)
+				}
+				results[gi] = append(results[gi], o)
+			}(gi)
+		}
+		close(start)
+		wg.Wait()
+	}
+	for gi, rs := range results {
+		for _, o := range rs {
+			c.Out.Count("cases", 1)
+			c.Out.Count("cold_start_histories", 1)
+			id := fmt.Sprintf("cold/%s/g%d", o.cs.ID, gi)
+			c.Out.Distinct(id, true)
+			ref, rmsg := o.cs.runWriter(rand.New(rand.NewSource(1)), nil)
+			switch {
+			case o.msg != "" && rmsg == "":
+				c.Out.Violate(Violation{Prop: "C13", Key: "mode=cold;kind=fails_only_at_cold_start", Case: "cold", Detail: fmt.Sprintf("history %s failed when it was among the first uses of the library on %d goroutines at once (%s) and succeeds when repeated alone", o.cs.ID, g, o.msg), Extra: map[string]interface{}{"mode": "cold"}})
+			case o.msg == "" && rmsg == "" && !bytes.Equal(o.b, ref):
+				c.Out.Violate(Violation{Prop: "C13", Key: "mode=cold;kind=bytes_differ_at_cold_start", Case: "cold", Detail: fmt.Sprintf("history %s produced different bytes when it was among the first uses of the library on %d goroutines at once (first difference at byte %d of %d/%d)", o.cs.ID, g, firstDiffIdx(o.b, ref), len(o.b), len(ref)), Extra: map[string]interface{}{"mode": "cold"}})
+			case o.msg == "" && o.read != "":
+				c.Out.Violate(Violation{Prop: "C13", Key: "mode=cold;kind=rows_differ_at_cold_start", Case: "cold", Detail: fmt.Sprintf("history %s, read back while the library was first used on %d goroutines at once: %s", o.cs.ID, g, o.read), Extra: map[string]interface{}{"mode": "cold"}})
+			}
+		}
+	}
+	c.Out.Sample(map[string]interface{}{"mode": "cold", "goroutines": g, "rounds (one per struct shape, all goroutines start it together)": shapeOrder})
 }
